@@ -28,7 +28,7 @@ type Config struct {
 	// Config is the Java edition configuration (with embedded Bedrock config).
 	Config jconfig.Config `json:"config,omitempty" yaml:"config,omitempty"`
 	// See HealthService struct.
-	HealthService HealthService `json:"healthService,omitempty" yaml:"healthService,omitempty"`
+	HealthService HealthService `json:"healthService" yaml:"healthService"`
 	// See Connect struct.
 	Connect connect.Config `json:"connect,omitempty" yaml:"connect,omitempty"`
 	// See API struct.
@@ -42,7 +42,7 @@ type Config struct {
 // (https://github.com/grpc-ecosystem/grpc-health-probe)
 type HealthService struct {
 	Enabled bool   `json:"enabled,omitempty" yaml:"enabled,omitempty"`
-	Bind    string `json:"bind,omitempty" yaml:"bind,omitempty"`
+	Bind    string `json:"bind" yaml:"bind"`
 }
 
 // API is the configuration for the Gate API.
